@@ -40,6 +40,8 @@ def check(tier):
         mc_cfg = "Privileges_mc.cfg" if quick else "Privileges_mc4.cfg"
         mc = pool.submit(lib.tlc, "Privileges", mc_cfg, workers=3 if quick else 6, timeout=1500 if quick else 7200,
                          coverage=not quick, heap="6g")
+        # thorough: the dynamic privileges (both, own flags) exhaustively in their own small vocabulary
+        mcd = None if quick else pool.submit(lib.tlc, "Privileges", "Privileges_mcdyn.cfg", workers=3, timeout=7200, coverage=True, heap="6g")
         sim_cfg, nsim, depth = ("Privileges_simrq.cfg", 60, 8) if quick else ("Privileges_simr.cfg", 800, 12)
         rs, strs = pc.simulate(sim_cfg, nsim, depth, lib.seed())
         lib.log("[C41] simulate: %d steps %.0fs" % (len(strs), time.time() - t0))
@@ -63,8 +65,15 @@ def check(tier):
         forged = pc.forged_selftest(b, mms, kind_of_reload=True) if not quick else None
         r = mc.result()
         lib.tlc_ok(r, "Privileges/" + mc_cfg)
-        if not quick and r.coverage_zero():
-            raise lib.Inconclusive("vacuous: actions never taken in %s: %s" % (mc_cfg, r.coverage_zero()))
+        rdyn = None
+        if not quick:
+            z = [a for a in r.coverage_zero() if a != "DynStep"]      # (no dynamic privileges in mc4: they are in mcdyn)
+            if z:
+                raise lib.Inconclusive("vacuous: actions never taken in %s: %s" % (mc_cfg, z))
+            rdyn = mcd.result()
+            lib.tlc_ok(rdyn, "Privileges/Privileges_mcdyn.cfg")
+            if rdyn.coverage_zero():
+                raise lib.Inconclusive("vacuous: actions never taken in Privileges_mcdyn.cfg: %s" % rdyn.coverage_zero())
         reloads = sum(1 for e in b.events if e["ev"] == "reload") + srep["extra"]["by_action"].get("PersistReload", 0)
         nonempty = sum(1 for e in b.events if e["ev"] == "reload" and
                        (e["stb"]["edges"] or any(a["g"] for a in e["stb"]["accts"])))
@@ -85,6 +94,7 @@ def check(tier):
             "distinct_nontrivial": nonempty,
             "rule": "evaluations = persist -> load-into-fresh-engine round trips compared (Persist/Reload steps inside histories + one after every history); non-trivial = the reloaded state holds at least one grant or role edge; %d probe outcomes compared before/after and judged against Allowed; %d of the end-of-history round trips with dynamic privileges, %d with an account holding two of them with different grant-option flags" % (rows, with_dyn, mixed_dyn),
             "reloads_with_dynamic_privileges": with_dyn, "reloads_with_mixed_grant_option_flags": mixed_dyn,
+            "model_check_dynamic_privileges": None if rdyn is None else {"config": "Privileges_mcdyn.cfg", "states": rdyn.distinct, "transitions": rdyn.generated, "depth": rdyn.depth, "tlc_wall_s": round(rdyn.wall, 1)},
             "model_check": {"config": mc_cfg, "depth": r.depth, "tlc_wall_s": round(r.wall, 1), "property": "ReloadIdentity"},
             "simulated": {"config": sim_cfg, "histories": srep["extra"]["histories"], "depth": depth, "steps": srep["cases"],
                           "by_action": srep["extra"]["by_action"]},
